@@ -5,6 +5,7 @@
 -/
 import SpecsModel.Lemmas.EWorldAccept
 import SpecsModel.Lemmas.EntSpecFacts
+import SpecsModel.Props.WorldEnt
 namespace SpecsModel.C02
 open SpecsModel Alloc
 
@@ -79,5 +80,15 @@ example : (EWorld.run [.createNow false, .createAtomic true, .delAtomic 0, .aliv
       .alive 0, .alive 1, .createNow false, .delBatch [2, 0, 2], .ejoin]).2.map (·.2)
     = [.ent ⟨0, 1⟩, .ent ⟨1, 1⟩, .kill .ok, .bool true, .bool true, .unit, .bool false, .bool false,
        .ent ⟨1, 2⟩, .kill (.err 1), .ents []] := by decide +kernel
+
+
+/-- **C02 for the full world model**: in every reachable world (any history, incl. storages and lazy
+    scripts) `is_alive` of a logged handle is membership in the live set of an abstract timeline to which
+    the allocator is coupled. -/
+theorem world_alive_iff_live (fuel : Nat) (ops : List WOp) :
+    ∃ s : EntSpec, WR (WorldEnt.after fuel ops).ent s ∧ ∀ e, e ∈ (WorldEnt.after fuel ops).ent.log.toList →
+      ((WorldEnt.after fuel ops).ent.alloc.isAlive e = true ↔ e ∈ s.live) := by
+  obtain ⟨s, hW⟩ := WorldEnt.coupled fuel ops
+  exact ⟨s, hW, fun e he => ⟨fun h => (hW.r.liveIff e).mpr ⟨hW.logSeen e he, h⟩, fun h => ((hW.r.liveIff e).mp h).2⟩⟩
 
 end SpecsModel.C02
